@@ -9,6 +9,7 @@ use std::sync::atomic::{AtomicUsize, Ordering};
 
 mod ops2;
 mod ops3;
+mod ops4;
 
 struct Counting;
 pub static ALLOCS: AtomicUsize = AtomicUsize::new(0);
@@ -338,6 +339,9 @@ fn run(f: &[&str]) -> String {
 				return r;
 			}
 			if let Some(r) = ops3::run(f) {
+				return r;
+			}
+			if let Some(r) = ops4::run(f) {
 				return r;
 			}
 			panic!("unknown op {}", f[0])
